@@ -21,7 +21,7 @@ from supp.project import Project
 PROPERTY = 'C15'
 LEVEL = 'exploration'
 BUDGET_S = {'quick': 110, 'thorough': 1700}
-UNIT_TIMEOUT_S = 600
+UNIT_TIMEOUT_S = 1200
 REMOTE_FILE = remote.__file__
 REMOTE_CODES = [f.__code__ for f in vars(remote.Environment).values() if hasattr(f, '__code__')]
 STEP_CAP = 60000
@@ -72,7 +72,11 @@ def worker_init():
 # ---------------------------------------------------------------- case generation
 
 FAULT_KINDS = ('analyser_raises', 'unknown_method', 'bad_args', 'unserialisable', 'before_configure', 'eval_raises',
-               'bad_configure')
+               'bad_configure', 'unsendable')
+
+# text that is no valid unicode: lone surrogates, also adjacent ones whose low bytes would form a UTF-8 sequence
+# (what os.fsdecode() makes of undecodable file names)
+BAD_TEXT = ['\ud800', 'x\udcff', '\udce4\udcb8\udcad', '\udcc3\udca9y']
 
 
 def gen_fault(r, kind, uid):
@@ -104,8 +108,18 @@ def gen_fault(r, kind, uid):
                          'return %r + chr(0xd800)' % uid, 'a = [%r]\na.append(a)\nreturn a' % uid,
                          'return [%r * 100, {"k": [1, 2, object()]}]' % uid,
                          # a failure whose own message cannot be serialised
-                         'raise ValueError(chr(0xdc00) + %r)' % uid))
+                         'raise ValueError(chr(0xdc00) + %r)' % uid,
+                         # text that is no unicode; results that cannot even be printed
+                         'return %r + chr(0xdce4) + chr(0xdcb8) + chr(0xdcad)' % uid,
+                         'return {chr(0xdcc3) + chr(0xdca9): %r}' % uid,
+                         'class R(object):\n    def __repr__(self):\n        raise ValueError("no repr " + %r)\nreturn [1, R()]' % uid,
+                         'x = [%r]\nfor i in range(100000):\n    x = [x]\nreturn x' % uid))
         return {'op': 'eval', 'body': body, 'expect': None, 'calc': True, 'fault': kind}
+    if kind == 'unsendable':
+        # a buffer whose text cannot be sent (and cannot be parsed in-process either): the call raises, nothing else happens
+        bad = r.choice(BAD_TEXT)
+        op = r.choice(('lint', 'assist', 'location'))
+        return {'op': op, 'source': '%s = 1\nzs = "%s"\nzs\n' % (uid, bad), 'position': [3, 2], 'file': 'zqmain.py', 'fault': kind}
     if kind == 'eval_raises':
         body = r.choice(('raise ValueError(%r)' % ('boom ' + uid), 'return 1 / 0', 'return undefined_' + uid,
                          'raise KeyError(%r)' % uid, 'import nosuchmodule_' + uid))
@@ -549,6 +563,8 @@ class Session(object):
                     self.probes['serialise_fallback'] += 1
                     if type(e) is not Exception or msg != 'Serialize error':
                         self.vio('C15/failure-report/unserialisable', 'call %d: expected Exception("Serialize error"), got %r' % (idx, e))
+                elif fault == 'unsendable' and exp[0] == 'exc':
+                    pass        # raised on the client side, before anything was sent: any exception will do
                 elif exp[0] == 'ok':
                     self.vio('C15/unexpected-exception/%s/%s' % (tag, type(e).__name__),
                              'call %d (%s) raised %r but the in-process call returns %r\n%s' % (
